@@ -101,13 +101,13 @@ def hygiene():
     return bad
 
 
-def check_assumptions(pid, props_file, theorems, allowed, work):
+def check_assumptions(pid, props_files, theorems, allowed, work):
     """One tiny file per theorem: Check + Print Assumptions.  Returns (results, failures)."""
-    modpath = 'DV.' + props_file[:-2].replace('/', '.')
+    imports = ''.join('Require Import DV.%s.\n' % f[:-2].replace('/', '.') for f in props_files)
     jobs = []
     for th in theorems:
         p = os.path.join(work, 'assum_%s.v' % th)
-        open(p, 'w').write('Require Import %s.\nCheck %s.\nPrint Assumptions %s.\n' % (modpath, th, th))
+        open(p, 'w').write('%sCheck %s.\nPrint Assumptions %s.\n' % (imports, th, th))
         jobs.append((th, p))
     res, fails = {}, []
     with ThreadPoolExecutor(NCPU) as ex:
@@ -319,7 +319,8 @@ def run_check(pid, tier, seed, replay=None):
             broken.append(('translator-abort', 'tools/gen_tables.py', (out.strip() if not errs else '\n'.join('%s: %s' % e for e in errs))[-1500:]))
 
     # 2. proof obligations
-    props_file = plugin.COQ_PROPS
+    props_files = plugin.COQ_PROPS if isinstance(plugin.COQ_PROPS, (list, tuple)) else [plugin.COQ_PROPS]
+    props_file = props_files[0]
     theorems = list(plugin.THEOREMS)
     allowed = list(getattr(plugin, 'ALLOWED_AXIOMS', []))
     extra_targets = [t for t in getattr(plugin, 'COQ_EXTRA_TARGETS', [])]
@@ -328,7 +329,7 @@ def run_check(pid, tier, seed, replay=None):
             rel = mod.replace('.', '/') + '.v'
             if os.path.exists(os.path.join(COQ, rel)) and rel + 'o' not in extra_targets:
                 extra_targets.append(rel + 'o')
-    rc, out = make_targets([props_file + 'o'] + extra_targets)
+    rc, out = make_targets([f + 'o' for f in props_files] + extra_targets)
     build_ok = rc == 0
     if not build_ok:
         m = re.findall(r'File "([^"]+)", line (\d+).*?\n(Error:.*?)(?=\nmake|\Z)', out, re.S)
@@ -336,7 +337,7 @@ def run_check(pid, tier, seed, replay=None):
         broken.append(('broken-obligation', name, out.strip()[-2500:]))
     assum, discharged = {}, 0
     if build_ok:
-        assum, fails = check_assumptions(pid, props_file, theorems, allowed, work)
+        assum, fails = check_assumptions(pid, props_files, theorems, allowed, work)
         for f in fails:
             broken.append(('broken-obligation', f.split(':')[0], f))
         bad_th = set(re.match(r'theorem (\S+?):? ', f).group(1).rstrip(':') for f in fails if f.startswith('theorem '))
@@ -479,7 +480,7 @@ def run_check(pid, tier, seed, replay=None):
         'property_id': pid, 'tier': tier, 'seed': seed, 'level': 'proof',
         'coverage': {
             'obligations': len(theorems), 'discharged': discharged,
-            'checker_cmd': 'make -C coq %so && coqc (Check + Print Assumptions per theorem); forbidden-construct grep over coq/' % props_file,
+            'checker_cmd': 'make -C coq %s && coqc (Check + Print Assumptions per theorem); forbidden-construct grep over coq/' % ' '.join(f + 'o' for f in props_files),
             'trusted_base': ['Coq 8.16.1 kernel + vm_compute (no native_compute)',
                              'tools/gen_tables.py + tools/tables/*.py (literal tables translated from the Python AST on every run)',
                              'correspondence harness vlib/*.py + props/%s.py (generators, implementation runner, Coq literal printer)' % pid.lower()] + tb,
